@@ -25,7 +25,7 @@ def programs(tier, rng):
     total = len(p31) + len(p22) + len(p32)
     idx = list(range(len(p32)))
     rng.shuffle(idx)
-    take = 5000 if tier == 'quick' else 80000
+    take = 3000 if tier == 'quick' else 80000
     out = [('3x1-%d' % k, p) for k, p in enumerate(p31)] + [('2x2-%d' % k, p) for k, p in enumerate(p22)]
     out += [('3x2-%d' % k, p32[k]) for k in sorted(idx[:take])]
     if tier != 'quick':
@@ -37,7 +37,7 @@ def programs(tier, rng):
     return out, total
 
 
-def chain_programs(tier, rng, n_nested=3000, n_other=1500):
+def chain_programs(tier, rng, n_nested=2000, n_other=1000):
     """deep nesting: every scope tree that is one chain module > s2 > s3 > s4 (all kinds, one name); quick takes a seeded sample that favours the
     chains with a class directly inside a class (which no 3-scope program contains)"""
     chain, _ = tlc.cached_export('Rename', 'Export_Rename_chain4.cfg', timeout=3600)
@@ -150,7 +150,7 @@ def py2_replay(rep, tier, rng, family, tag, optsets):
     rest = [x for x in progs if 'g' not in x[1]['kind']]
     rng.shuffle(with_comp)
     rng.shuffle(rest)
-    take = with_comp[:1200] + rest[:600] if tier == 'quick' else progs
+    take = with_comp[:900] + rest[:400] if tier == 'quick' else progs
     jobs = []
     for pid, p in take:
         on, o = optsets[rng.randrange(len(optsets))]
@@ -183,7 +183,7 @@ def pep709_replay(rep, tier, rng, tag):
     progs, _ = tlc.cached_export('Rename', 'Export_Rename_709.cfg', timeout=3600)
     idx = list(range(len(progs)))
     rng.shuffle(idx)
-    take = 3000 if tier == 'quick' else 40000
+    take = 2000 if tier == 'quick' else 40000
     jobs = [{'id': '709-%d|TT|lc' % k, 'p': progs[k], 'variant': 0, 'opts': {'rl': True, 'rg': True}, 'listcomp': True} for k in sorted(idx[:take])]
     obs = local.pmap(scopegen.observe, jobs, chunksize=64)
     rep.evaluations += len(obs)
